@@ -28,7 +28,7 @@ BOUNDS = {
              "NumberOfIntervalsSlicer: x and both range ends symbolic doubles in [0, 100], n_intervals 1..6, both "
              "include_max values; PointsPerIntervalSlicer: vectors of 3-4 symbolic reals in arbitrary order, all "
              "n_points / last_full; dropping / references / min_n_intervals on 4 values",
-    "thorough": "up to 10 intervals (the QF_FP queries for 12 intervals ran into the 150 s cap on a loaded machine and are left outside), vectors of 5 values",
+    "thorough": "up to 10 (width slicer) / 9 (number slicer) intervals with a 900 s cap per FP query (more intervals were not decided within the cap on a loaded machine and are left outside), vectors of 5 values",
 }
 OUTSIDE = [
     "more intervals than the bound (one query per interval count); widths outside [0.01, 10]; data above 100",
@@ -268,14 +268,18 @@ def h_drop_and_references(h):
     I = shim.mod("intervals")
     kind, ref, mnp, mni = h.cfg["slicer"], h.cfg["reference"], h.cfg["min_n_points"], h.cfg["min_n_intervals"]
     # concrete interval layout (width 1 / 4 intervals on [0,4]), symbolic observations inside known cells
-    cells = h.cfg["cells"]                       # cell index of every observation
-    vals = [c + h.real(f"u{i}", 0.05, 0.95) for i, c in enumerate(cells)]
+    cells = h.cfg["cells"]                       # cell index of every observation; 4 = exactly the upper limit 4.0
+    im = h.cfg.get("include_max", True)
+    vals = [(c + h.real(f"u{i}", 0.05, 0.95)) if c < 4 else 4.0 for i, c in enumerate(cells)]
     data = h.arr(vals)
+    # an observation at the upper limit belongs to the last interval iff include_max, otherwise to none (not counted)
+    cells = [(3 if im else -1) if c == 4 else c for c in cells]
     refarg = {"center": "center", "left": "LEFT", "right": "Right", "callable": (lambda a: a.sum() / len(a))}[ref]
     if kind == "width":
         s = I.WidthOfIntervalSlicer(1.0, reference=refarg, value_range=(0, 3.5), min_n_points=mnp, min_n_intervals=mni)
     else:
-        s = I.NumberOfIntervalsSlicer(4, reference=refarg, value_range=(0, 4.0), min_n_points=mnp, min_n_intervals=mni)
+        s = I.NumberOfIntervalsSlicer(4, reference=refarg, value_range=(0, 4.0), min_n_points=mnp, min_n_intervals=mni,
+                                      include_max=im)
     counts = [sum(1 for c in cells if c == k) for k in range(4)]
     keep = [k for k in range(4) if counts[k] >= mnp]
     if len(keep) < mni:
@@ -330,17 +334,20 @@ def h_reuse(h):
 def obligations(tier):
     for kind in ("width", "number", "points"):
         yield ("reuse", h_reuse, {"slicer": kind, "n": 3 if tier == "quick" else 4}, {"max_paths": 20000})
-    Ks = range(1, 7) if tier == "quick" else range(1, 11)
-    for K in Ks:
+    # FP queries grow ~1.6x per interval (number slicer, loaded machine: K=6 52 s, K=7 93 s, K=8 147 s): the thorough
+    # tier gets a 900 s cap per solver and stops at 10 (width) / 9 (number) intervals
+    fpo = {"runner": fp_runner, "replayer": fp_replayer}
+    if tier != "quick":
+        fpo["timeout_s"] = 900
+    for K in (range(1, 7) if tier == "quick" else range(1, 11)):
         for ro in (True, False):
             for vr in (("none", "given") if tier == "quick" else ("none", "given", "upper_only")):
                 if tier == "quick" and not ro and vr == "given":
                     continue
-                yield ("width_fp", None, {"slicer": "width", "K": K, "right_open": ro, "value_range": vr},
-                       {"runner": fp_runner, "replayer": fp_replayer})
+                yield ("width_fp", None, {"slicer": "width", "K": K, "right_open": ro, "value_range": vr}, dict(fpo))
+    for K in (range(1, 7) if tier == "quick" else range(1, 10)):
         for im in (True, False):
-            yield ("number_fp", None, {"slicer": "number", "K": K, "include_max": im},
-                   {"runner": fp_runner, "replayer": fp_replayer})
+            yield ("number_fp", None, {"slicer": "number", "K": K, "include_max": im}, dict(fpo))
     for n in ((3, 4) if tier == "quick" else (3, 4, 5)):
         for npts in range(1, n + 1):
             for lf in (True, False):
@@ -355,3 +362,10 @@ def obligations(tier):
                         continue
                     yield ("drop_and_references", h_drop_and_references,
                            {"slicer": kind, "reference": ref, "cells": cells, "min_n_points": mnp, "min_n_intervals": mni}, {})
+    # observations exactly at the upper limit of the number slicer, with and without include_max
+    for cells in ([0, 1, 3, 4], [3, 4, 4, 0], [4, 4, 1, 1], [0, 1, 2, 4]):
+        for im in (True, False):
+            for mnp, mni in ((1, 1), (2, 1), (1, 4), (3, 1)):
+                yield ("drop_and_references", h_drop_and_references,
+                       {"slicer": "number", "reference": "center", "cells": cells, "min_n_points": mnp,
+                        "min_n_intervals": mni, "include_max": im}, {})
